@@ -237,12 +237,12 @@ sys.path.insert(0, sys.argv[1])
 from vharness import seams; seams.setup()
 from vharness.seams import run_nodes
 from vharness.traced import run_traced
-nodes = [{"processor": "FloatValueDataSource", "parameters": {"value": 2.0}}, {"processor": 'template:"größe={größe}":label'},
+nodes = [{"processor": "FloatValueDataSource", "parameters": {"value": 2.0}}, {"processor": 'template:"größe={size}":label'},
          {"processor": "FloatCollectValueProbe", "context_key": "測定"}]
 out = []
 for detail in ("hash", "repr", "context", "all"):
-    un = run_nodes(nodes, None, {"größe": 1.5, "café": "é…"})
-    tr = run_traced(nodes, None, {"größe": 1.5, "café": "é…"}, detail=detail)
+    un = run_nodes(nodes, None, {"size": 1.5, "café": "é…"})
+    tr = run_traced(nodes, None, {"size": 1.5, "café": "é…"}, detail=detail)
     out.append({"detail": detail, "un": un["raised"], "tr": tr["raised"], "same": un["final"] == tr["final"], "records": len(tr["records"]),
                 "read_error": tr.get("read_error")})
 import locale
@@ -271,6 +271,8 @@ def locale_check(run) -> None:
         raise core.MachineryError(f"locale child produced no result: {p.stderr[-500:]}")
     res = _json.loads(line[len("LOCALE-RESULT "):])
     run.extra["non_utf8_locale"] = {"preferred_encoding": res["encoding"], "runs": len(res["runs"])}
+    if any(r["un"] is not None for r in res["runs"]):
+        raise core.MachineryError(f"vacuity: the locale probe pipeline does not run untraced: {res['runs'][0]['un']}")
     for r in res["runs"]:
         run.evaluations += 1
         if r["un"] != r["tr"] or not r["same"] or r["read_error"] or (r["tr"] is None and r["records"] < 5):
